@@ -8,7 +8,7 @@
    holder is a map without entries); [tnav], [tset], [tlen], [tcap], [tcmp],
    [tpairs], [strip], [treset], [copy_of] are the specification.
    The first argument [true] of every model function selects the code after the
-   three "fix:" commits of KNOWN_FINDINGS; [false] is the pinned commit.
+   "fix:" commits of KNOWN_FINDINGS; [false] is the pinned commit.
    All statements are for ALL trees (no depth bound), all paths, all histories. *)
 From Coq Require Import ZArith NArith List String Ascii Bool.
 From Verif Require Import Util Ints StrAnyMap StrAnyMapSpec StrAnyMapAbs
@@ -100,8 +100,11 @@ Print Assumptions C18_non_map_unsupported.
 
 (* Set is the specification's [tset]: it creates or replaces the addressed
    leaf, creates the intermediate maps, and answers a step through a non-map
-   with the unsupported-type error - leaving the tree exactly as it was. *)
-Theorem C18_set_exact : forall p x v, nonil x = true -> p <> [] ->
+   with the unsupported-type error - leaving the tree exactly as it was.
+   [settable]: every nil holder in the tree is a non-nil *map / **map -> *map
+   ending in a nil map - Set makes the map and stores it through the pointer;
+   trees without nil holders ([nonil], C18_nonil_settable) are the special case. *)
+Theorem C18_set_exact : forall p x v, settable x = true -> p <> [] ->
   match tset (abs x) p (stored (abs v)) with
   | SetOk t' => exists x', set true p x v = (x', Ok tt) /\ abs x' = t'
   | SetNonMap => set true p x v = (x, Err EUnsupported)
@@ -109,7 +112,11 @@ Theorem C18_set_exact : forall p x v, nonil x = true -> p <> [] ->
 Proof. exact set_exact. Qed.
 Print Assumptions C18_set_exact.
 
-Theorem C18_set_error_leaves_tree : forall p x v e, nonil x = true ->
+Theorem C18_nonil_settable : forall x, nonil x = true -> settable x = true.
+Proof. exact nonil_settable. Qed.
+Print Assumptions C18_nonil_settable.
+
+Theorem C18_set_error_leaves_tree : forall p x v e, settable x = true ->
   snd (set true p x v) = Err e -> e = EUnsupported /\ fst (set true p x v) = x.
 Proof. exact set_error_unchanged. Qed.
 Print Assumptions C18_set_error_leaves_tree.
@@ -124,7 +131,7 @@ Theorem C18_set_frame : forall p t v t' q, tset t p v = SetOk t' -> off_path p q
 Proof. exact tset_frame. Qed.
 Print Assumptions C18_set_frame.
 
-Theorem C18_set_frame_model : forall p x v q, nonil x = true -> off_path p q = true ->
+Theorem C18_set_frame_model : forall p x v q, settable x = true -> off_path p q = true ->
   tnav (abs (fst (set true p x v))) q = tnav (abs x) q.
 Proof. exact set_frame_model. Qed.
 Print Assumptions C18_set_frame_model.
@@ -132,7 +139,7 @@ Print Assumptions C18_set_frame_model.
 (* Strings and bytes are copied into the buffer: reading the path back yields
    [bufferized v] itself - for a string / byte slice the buffer's memory
    ([OBuf]), never the caller's, bytes cut to their length. *)
-Theorem C18_set_copies_into_buffer : forall p x v, nonil x = true -> p <> [] ->
+Theorem C18_set_copies_into_buffer : forall p x v, settable x = true -> p <> [] ->
   snd (set true p x v) = Ok tt ->
   get true p (fst (set true p x v)) = Ok (Some (bufferized v)).
 Proof. exact set_then_get. Qed.
@@ -165,6 +172,21 @@ Theorem C18_copyto_equal_fresh : forall o f es od df des, df <> FVal ->
 Proof. exact copy_to_equal. Qed.
 Print Assumptions C18_copyto_equal_fresh.
 
+(* CopyTo from EVERY source that is a map - a nil map, by value or behind a nil
+   or nil-pointing pointer, is an empty one - into every destination there is a
+   pointer to ([fillable]: a map held by pointer, or a non-nil pointer to a nil
+   map, which gets a map made for it): no error, equal to the source, fresh.
+   A destination POINTER that is nil (nil *map, nil **map, **map -> nil *map)
+   leaves nothing to store through: CopyTo does nothing and returns nil, as every
+   method of this inspector does on a nil pointer; such destinations are outside
+   the statement. *)
+Theorem C18_copyto_any_source : forall src dst, is_map src = true -> fillable dst = true ->
+  snd (copy_to true src dst) = Ok tt /\
+  copy_of (abs src) (abs (fst (copy_to true src dst))) /\
+  fresh_es (src_entries (fst (copy_to true src dst))) = true.
+Proof. exact copy_to_any. Qed.
+Print Assumptions C18_copyto_any_source.
+
 (* Reset empties the map ... *)
 Theorem C18_reset_empties : forall x, is_map x = true ->
   snd (reset true x) = Ok tt /\ root_entries (abs (fst (reset true x))) = [] /\
@@ -182,10 +204,10 @@ Print Assumptions C18_reset_in_place.
 (* Any sequence of Set / Get / Length / Capacity / Compare / Loop / Copy /
    Reset on one tree: the real state is, abstractly, the specification's state
    (so every read in the history reports what the theorems above say about the
-   abstract tree), and no nil holder ever appears. *)
-Theorem C18_history : forall ops x, nonil x = true -> forallb op_ok ops = true ->
+   abstract tree), and the tree stays in the domain of C18_set_exact. *)
+Theorem C18_history : forall ops x, settable x = true -> forallb op_ok ops = true ->
   abs (fold_left (step true) ops x) = fold_left tstep ops (abs x) /\
-  nonil (fold_left (step true) ops x) = true.
+  settable (fold_left (step true) ops x) = true.
 Proof. exact history_abs. Qed.
 Print Assumptions C18_history.
 
@@ -335,8 +357,19 @@ Definition demo : any :=
      ("bar", AMap OCaller FPtr [("dptr", AMap OCaller FPtr2 [("nested", ABytes OCaller "some bytes" 6)])]);
      ("str", AStr OCaller "some string")].
 
-Example C18_demo_hypotheses : nonil demo = true /\ wf demo = true /\ is_map demo = true.
+Example C18_demo_hypotheses : nonil demo = true /\ settable demo = true /\ wf demo = true /\ is_map demo = true.
 Proof. vm_compute. auto. Qed.
+
+(* nil maps behind pointers: var m map[string]any; Set(&m, ...); CopyTo(src, &m, buf); CopyTo(nil map, &dst, buf) *)
+Example C18_demo_nil_map_behind_pointer :
+  settable (ANilMap NPtrMap) = true /\ fillable (ANilMap NPtr2PtrMap) = true /\
+  set true ["a"; "b"] (ANilMap NPtrMap) (AStr OCaller "s") =
+    (AMap OMake FPtr [("a", AMap OMake FVal [("b", AStr OBuf "s")])], Ok tt) /\
+  copy_to true demo (ANilMap NPtr2PtrMap) = (AMap OMake FPtr2 (cpy (src_entries demo)), Ok tt) /\
+  copy_to true (ANilMap NPtr) (AMap OOther FPtr [("old", AInt KInt 9)]) = (AMap OOther FPtr [], Ok tt) /\
+  (* a nil destination pointer: nothing to store through, no error *)
+  copy_to true demo (ANilMap NPtr) = (ANilMap NPtr, Ok tt).
+Proof. vm_compute. repeat split; reflexivity. Qed.
 
 Example C18_demo_reads :
   get true ["bar"; "dptr"; "nested"] demo = Ok (Some (ABytes OCaller "some bytes" 6)) /\
@@ -392,36 +425,48 @@ Proof.
 Qed.
 Print Assumptions C18_refuted_reset_by_value.
 
-(* ================= refuted: the current code on nil holders (open findings) ================= *)
+(* Set through a pointer to a nil map stored nothing and reported no error. *)
+Theorem C18_refuted_set_nil_map_pointer :
+  exists x p v t', p <> [] /\ settable x = true /\ tset (abs x) p (stored (abs v)) = SetOk t' /\
+                   set false p x v = (x, Ok tt) /\ abs x <> t'.
+Proof.
+  exists w_nilmap, ["a"; "b"], (AInt KInt 1). eexists.
+  destruct pinned_set_through_nil_map_pointer_is_silent_noop as [H1 [H2 [H3 _]]].
+  split; [discriminate|]. split; [reflexivity|]. split; [exact H2|]. split; [exact H1|exact H3].
+Qed.
+Print Assumptions C18_refuted_set_nil_map_pointer.
 
-(* [nonil] in C18_set_exact is necessary: a Set whose path reaches a nil map
+(* CopyTo into a pointer to a nil map copied nothing and reported no error. *)
+Theorem C18_refuted_copyto_nil_dst :
+  exists src dst, is_map src = true /\ fillable dst = true /\ snd (copy_to false src dst) = Ok tt /\
+                  ~ copy_of (abs src) (abs (fst (copy_to false src dst))).
+Proof.
+  exists w_flat, (ANilMap NPtrMap). destruct pinned_copyto_nil_dst_copies_nothing as [H1 [H2 _]].
+  rewrite H1. auto.
+Qed.
+Print Assumptions C18_refuted_copyto_nil_dst.
+
+(* CopyTo from a nil map left the destination's old entries in place. *)
+Theorem C18_refuted_copyto_nil_src :
+  exists src dst, is_map src = true /\ fillable dst = true /\ snd (copy_to false src dst) = Ok tt /\
+                  ~ copy_of (abs src) (abs (fst (copy_to false src dst))).
+Proof.
+  exists (ANilMap NMap), w_dst. destruct pinned_copyto_nil_src_keeps_old_entries as [H1 [H2 _]].
+  rewrite H1. auto.
+Qed.
+Print Assumptions C18_refuted_copyto_nil_src.
+
+(* ================= refuted: the current code on nil holders (open finding) ================= *)
+
+(* [settable] in C18_set_exact is necessary: a Set whose path reaches a nil map
+   held by value, or a nil pointer, has no pointer to store a map through; it
    stores nothing and reports no error. *)
 Theorem C18_refuted_set_nil_holder :
   exists x p v t', p <> [] /\ tset (abs x) p (stored (abs v)) = SetOk t' /\
                    set true p x v = (x, Ok tt) /\ abs x <> t'.
 Proof.
-  exists w_nilmap, ["a"; "b"], (AInt KInt 1). eexists.
-  destruct set_through_nil_holder_is_silent_noop as [H1 [H2 H3]].
+  exists w_nilval, ["a"; "b"], (AInt KInt 1). eexists.
+  destruct set_through_nil_holder_is_silent_noop as [H1 [H2 [H3 _]]].
   split; [discriminate|]. split; [exact H2|]. split; [exact H1|exact H3].
 Qed.
 Print Assumptions C18_refuted_set_nil_holder.
-
-(* CopyTo into a pointer to a nil map copies nothing and reports no error. *)
-Theorem C18_refuted_copyto_nil_dst :
-  exists src dst, is_map src = true /\ snd (copy_to true src dst) = Ok tt /\
-                  ~ copy_of (abs src) (abs (fst (copy_to true src dst))).
-Proof.
-  exists w_flat, (ANilMap NPtrMap). destruct copyto_nil_dst_copies_nothing as [H1 H2].
-  rewrite H1. auto.
-Qed.
-Print Assumptions C18_refuted_copyto_nil_dst.
-
-(* CopyTo from a nil map leaves the destination's old entries in place. *)
-Theorem C18_refuted_copyto_nil_src :
-  exists src dst, is_map src = true /\ snd (copy_to true src dst) = Ok tt /\
-                  ~ copy_of (abs src) (abs (fst (copy_to true src dst))).
-Proof.
-  exists (ANilMap NMap), w_dst. destruct copyto_nil_src_keeps_old_entries as [H1 H2].
-  rewrite H1. auto.
-Qed.
-Print Assumptions C18_refuted_copyto_nil_src.
